@@ -15,7 +15,7 @@ func init() {
 		Explanation: "Decides: (teardown-present) each of the twelve memory agents' Reset handlers reaches a tracing teardown (EndReqInOnReset/EndTaskOnReset) through a helper; (teardown-coverage) that helper's closure reads every in-flight container of the agent (the quiescence fields of C18), so every dropped transaction's tasks are ended; " +
 			"(teardown-order) in the Reset handler no store to a State field that the teardown reads can execute before the teardown call — the teardown must observe the pre-reset state, otherwise tasks of the work being dropped stay started-never-ended; " +
 			"(api-identity) TraceReqComplete/EndReqInOnReset end the task under the same receiver-registry ID that TraceReqReceive started and release the registry entry afterwards, TraceReqFinalize/EndTaskOnReset end the ID TraceReqInitiate started; every API entry returns before doing anything when the domain has no hooks; " +
-			"(siblings) every library package that starts req_in tasks also completes them, that starts req_out tasks also finalizes them, and that calls StartTask also calls EndTask or a reset teardown.",
+			"(siblings) every library package that starts req_in tasks also completes them, that starts req_out tasks also finalizes them, and that calls StartTask also calls EndTask or a reset teardown; (live-release-id) no release call reads its ID from a state field that is always zero at that point (cleared before read); (mint-release) a function that mints a receiver-registry entry with MsgIDAtReceiver for a message type its package never registers with TraceReqReceive releases it on every path to return or parks the ID in a field a release reads.",
 		NotDecided:  "that every individual started task is ended on every run (requires matching dynamic IDs), milestone-within-lifetime, single-kind locations, end ≥ start times.",
 		Assumptions: []string{"in-flight containers per agent as frozen for C18"},
 	}, runC32)
@@ -370,6 +370,9 @@ func runC32(c *Ctx) {
 	}
 	c.Floor("siblings", 10)
 	receiveAccountedRule(c)
+	receiverReleaseRules(c, 1, 10)
+	lifecycleBeforeStallRule(c, "lifecycle-before-stall", 100)
+	staleElementRule(c, "stale-element", 5)
 }
 
 // ---- C33 ----
@@ -578,6 +581,33 @@ func runC33(c *Ctx) {
 			}
 		}
 	}
+	// the observation API never aborts the run on its own: explicit panics in the
+	// package-level tracing API (the part every component calls) are confined to
+	// the two validators reviewed below; a new abort that can only fire once a
+	// tracer is attached makes the observed run end differently from the
+	// unobserved one.
+	reviewedAPIPanics := map[string]string{
+		"tracing.allRequiredFieldsMustBeNotEmpty": "validates StartTask arguments; every library caller passes a freshly generated ID and constant kind/what",
+		"tracing.domainMustHaveName":              "a component without a name cannot be built through the builders",
+		"tracing.CollectTrace":                    "set-up time: attaching the same tracer twice to one domain is a configuration error, raised before the run",
+		"tracing.mustItem":                        "internal consistency: each hook position is invoked only by the API function that builds the matching item type",
+	}
+	nAPI := 0
+	for _, fn := range roots {
+		if fn.Signature.Recv() != nil || fn.Parent() != nil {
+			continue
+		}
+		nAPI++
+		for _, s := range panicSitesIn(fn) {
+			k := SSAFuncKey(fn)
+			if why := reviewedAPIPanics[k]; why != "" {
+				c.Ok("observer-total", k+"#"+s.What, s.Pos, "reviewed: "+why)
+				continue
+			}
+			c.Fail("observer-total", k+"#"+s.What, s.Pos, "the tracing API aborts the run ("+s.What+") on a path that is only taken when a tracer is attached (every API entry returns first when the domain has no hooks): the observed run can end in a crash where the unobserved run completes")
+		}
+	}
+	c.Check(nAPI >= 15, "observer-total", "tracing#api-functions", token.NoPos, itoa(nAPI)+" package-level tracing API functions inspected", "fewer tracing API functions found than confirmed by hand")
 	c.Check(bad == "" && len(roots) > 20, "passive-tracers", "tracing", token.NoPos, "no tracing function calls a simulation-mutating API ("+itoa(len(roots))+" functions)", "the tracing package drives the simulation: "+bad)
 }
 
